@@ -69,6 +69,38 @@ CLAIMED['C15'] = dict(
               'correspondence with a plain-data oracle for shapes and inverse pairs',
     ref='DESIGN.md 7 (C15)')
 
+LOADER_TIE = ('Tie: generated class models (hierarchies, abstract classes, mix-ins, enums, string-likes, '
+              'custom recognisers and savorizers from a hook DSL, raising constructors) are realised as '
+              'real Python classes and, read back through yatiml\'s own introspection, sent to the compiled '
+              'Lean driver together with the composed node tree; values, constructor-call logs, savorize '
+              'traces, cited error positions and key names are compared on every generated case. ')
+CLAIMED['C03'] = dict(
+    text='Lean 4 theorems on the model of Recognizer: recognition soundness by induction on fuel '
+         '(every recognised type is admitted by the expected type: a Union member, or a registered, '
+         'non-abstract class reachable from the expected class through registered direct-subclass '
+         'edges), abstract / unregistered classes never recognised, a non-singleton result makes '
+         'processing fail, an explicit tag picks among candidates and a conflicting or unknown tag '
+         'fails. Order independence is checked metamorphically on the real code (permuted '
+         'registration order and Union members). ' + LOADER_TIE,
+    note=NOTE_COMMON + 'order independence (permutation of Union members / registration) is '
+         'validated by exploration on the real code, not by a theorem.',
+    technique='Lean 4 proof (induction on fuel over the recogniser model) + differential '
+              'correspondence + permutation metamorphic runs',
+    ref='DESIGN.md 7 (C03)')
+CLAIMED['C08'] = dict(
+    text='Lean 4 theorems on the loader model, in which every Python operation that can raise is an '
+         'explicit failure site: construction never yields an exception of another type; processing '
+         'does not either when custom recognisers raise only RecognitionError (proved from a syntactic '
+         'condition on the hooks) — for every document tree, tag assignment, savorize behaviour '
+         '(including raising arbitrary exceptions and replacing the node) and constructor behaviour. '
+         + LOADER_TIE + 'Exception classes of real loads on mutated documents and token soup are observed.',
+    note=NOTE_COMMON + 'exceptions from sites the model does not contain (interpreter level), the '
+         'scanner/parser (YAMLError by construction), deep nesting (RecursionError, excluded by the '
+         'property).',
+    technique='Lean 4 proof (explicit failure sites, induction on fuel) + differential correspondence '
+              '+ malformed-input exploration',
+    ref='DESIGN.md 7 (C08)')
+
 NOT_YET = 'check not built yet in this round (planned proof: DESIGN.md section 7)'
 
 
